@@ -2,11 +2,13 @@ package c17
 
 import (
 	"fmt"
+	"strings"
 	"sync/atomic"
 
 	"verif/harness/core"
 	"verif/harness/sx"
 
+	"github.com/lyraproj/issue/issue"
 	"github.com/lyraproj/pcore/px"
 	"github.com/lyraproj/pcore/types"
 )
@@ -129,6 +131,8 @@ func execTParam(c px.Context, args []sx.Sexp) core.Result {
 }
 
 func genTParam(g *core.G) {
+	g.Emit("@msg eq")
+	g.Emit("@msg ser")
 	vals := map[string][]string{
 		"int":  {"-", "(i 0)", "(i 4)", "(s x78)"},
 		"str":  {"-", "(s x)", "(s x78)", "(i 1)"},
@@ -141,4 +145,41 @@ func genTParam(g *core.G) {
 			}
 		}
 	}
+}
+
+// Implementation-only op `@msg eq|ser`: a definition whose `equality` / `serialization` names a FUNCTION (functions are not
+// in the modelled universe) must be rejected with EQUALITY_NOT_ATTRIBUTE / SERIALIZATION_NOT_ATTRIBUTE, and the issue must
+// render (every `%{…}` of its message bound; no literal `{label}`).  Classes: not-attribute-accepted, message-args.
+func execMsg(c px.Context, args []sx.Sexp) core.Result {
+	if len(args) != 1 || args[0].IsList || (args[0].Atom != "eq" && args[0].Atom != "ser") {
+		return core.Result{Out: "bad-op", Pred: "n/a"}
+	}
+	n := atomic.AddInt64(&opCounter, 1)
+	entry, want := "equality => 'f'", "PCORE_EQUALITY_NOT_ATTRIBUTE"
+	if args[0].Atom == "ser" {
+		entry, want = "serialization => ['f']", "PCORE_SERIALIZATION_NOT_ATTRIBUTE"
+	}
+	text := fmt.Sprintf("type C17m%d::T = Object[{attributes => {'a' => Integer}, functions => {'f' => Callable[[0,0],Integer]}, %s}]", n, entry)
+	res := core.Result{Out: "ok", Pred: "ok", NonTrivial: true, Tags: []string{"msg"}}
+	px.DoWithContext(c.Fork(), func(fc px.Context) {
+		defer func() {
+			e := recover()
+			if e == nil {
+				res.Pred = "FAIL not-attribute-accepted a definition whose " + entry + " names a function was accepted"
+				return
+			}
+			msg := ""
+			if cls := safely(func() { msg = fmt.Sprint(e) }); cls != "" {
+				res.Pred = "FAIL fault the issue cannot be rendered"
+				return
+			}
+			if rep, ok := e.(interface{ Code() issue.Code }); !ok || string(rep.Code()) != want {
+				res.Pred = "FAIL not-attribute-accepted rejected with something else than " + want + ": " + msg
+			} else if strings.Contains(msg, "MISSING") || strings.Contains(msg, "{label}") || strings.Contains(msg, "%!") {
+				res.Pred = "FAIL message-args " + want + " renders with an unbound argument: " + msg
+			}
+		}()
+		px.AddTypes(fc, fc.ParseType(text))
+	})
+	return res
 }
